@@ -171,7 +171,7 @@ def one_run(res, seed, idx, cancel_at, phase, job_bias, pressure=None):
     return fails, info
 
 
-def judge(w, d, gen, act, info):
+def judge(w, d, gen, act, info, reorg_limit=5):
     """Fresh DB objects on the directory; compare every observable with the Lean specification of
     the daemon's chain... of the *indexed* chain up to the stored height."""
     fails = []
@@ -179,7 +179,7 @@ def judge(w, d, gen, act, info):
     import electrumx.server.db as dbmod
     import electrumx.server.block_processor as bpmod
     ri.dbmod, ri.bpmod = dbmod, bpmod
-    ri.dir, ri.env, ri.reorg_limit = w.dir, w.env, 5
+    ri.dir, ri.env, ri.reorg_limit = w.dir, w.env, reorg_limit
     from harness.world.realindex import FakeDaemon, Retry
 
     async def no_sleep(_s):
@@ -203,7 +203,7 @@ def judge(w, d, gen, act, info):
         ri.close_dbs()
         return fails
     chain = tip.chain() if tip else []
-    lines = [f'CFG {act} 5'] + [b.model_line() for b in chain] + ['S_CHAIN ' + ' '.join(str(b.id) for b in chain)]
+    lines = [f'CFG {act} {reorg_limit}'] + [b.model_line() for b in chain] + ['S_CHAIN ' + ' '.join(str(b.id) for b in chain)]
     expect = ['ok'] * len(lines)
     for s in SCRIPTS:
         hx = hashx_of(s)
